@@ -159,6 +159,8 @@ Fixpoint eval (ft : fntab) (fuel : nat) (en : env) (e : expr) {struct fuel} : ou
           | "eq", [VPtr x _; VN y] => Ret (VB (x =? y))   (* ptr::eq(reference, raw pointer): by address *)
           | "from_size_align", [VN s; VN a] =>        (* Layout::from_size_align: Ok(layout) iff the layout is valid *)
               Ret (if layout_ok s a then VSome (VRec [("size", VN s); ("align", VN a)]) else VNone)
+          | "from_size_align_unchecked", [VN s; VN a] =>   (* no validity test: the caller vouches for it *)
+              Ret (VRec [("size", VN s); ("align", VN a)])
           | _, _ => Stuck
           end
       end in
